@@ -1117,6 +1117,9 @@ class Collocator:
                     )
                     for dim in output[name].get_index("collocation").names
                 ])
+                # A MultiIndex cannot be overwritten by plain labels (xarray
+                # refuses to corrupt the index), drop it with its levels:
+                output[name] = output[name].drop_vars("collocation")
 
             # Okay, actually we want to get rid of the main coordinate. It
             # should stay as a dimension name but without own labels. I.e. we
